@@ -12,12 +12,14 @@ from harness import replay as rp
 from harness.armi_env import armi_ready
 
 MODDIR = os.path.join(common.SPEC, "core")
-ACTIONS = ("Swap", "SwapMismatch", "Add", "AddOccupied", "RemoveAsm", "DischargeSwap", "DischargeMismatch", "Next")
-# "Next" is how TLC's coverage labels the Cascade disjunct (its bound variable ranges over a computed set)
+ACTIONS = ("Swap", "SwapMismatch", "Add", "AddOccupied", "RemoveAsm", "DischargeSwap", "DischargeMismatch", "Ask", "Next")
+# "Next" is how TLC's coverage labels the disjuncts whose bound variable ranges over a computed set (Cascade, Repeat)
+# and the guarded Locate
 
 # the order in which observation fields are compared; the first differing field names the violation key
 FIELDS = ("err", "children", "where", "loc", "byLoc", "byLocSize", "sfp", "slot", "num", "nextNum", "asmFound", "asmDead",
-          "blkFound", "blkDead", "blocks", "bowner", "bk", "bname", "content", "moves")
+          "blkFound", "blkDead", "blocks", "bowner", "bk", "bname", "content", "moves", "label", "q")
+LABEL_DB, LABEL_SFP = -1, -2
 
 _BNAME = re.compile(r"^B(-?\d+)-(\d+)$")
 _ANAME = re.compile(r"^A(-?\d+)$")
@@ -46,11 +48,95 @@ class CoreAdapter:
         self.layout = {a + 1: "".join(config["layout"][a]) for a in range(self.NA)}
         self.place = {a + 1: config["place"][a] for a in range(self.NA0)}
         self.blkseq = list(config["blk"])
+        self.no_answer = config.get("noAnswer", {"asm": [], "str": [], "blk": [], "idx": []})
+        self._dbdir = None
 
     def bid(self, aid, k):
         return (aid - 1) * self.MB + k
 
-    def build(self, root):
+    def db_file(self, root, stationary):
+        """one database file per (geometry, settings): written by the first build, loaded by every build"""
+        if self._dbdir is None:
+            self._dbdir = common.workdir("c14db")
+        return os.path.join(self._dbdir, "core-%s-%s-%d-%s-%d.h5" % (
+            self.geom, self.symmetry, int(bool(root["track"])), "".join(stationary) or "none", self.NA))
+
+    def moves_file(self, w, act):
+        """the SHUFFLES-format record of the outage TLC chose: the lines the real readMoves/processMoveList parse"""
+        if self._dbdir is None:
+            self._dbdir = common.workdir("c14db")
+        inv = {l: lab for lab, l in w.labels.items()}
+        by_loc = {}
+        for a in w.core:  # who is where, for the type / name / enrichment columns of the record
+            sl = a.spatialLocator
+            by_loc[w.loc_index.get((int(sl.i), int(sl.j)))] = a
+
+        def line(a, src, dst):
+            return "%s moved to %s with assembly type %s ANAME=%s with enrich list: %s\n" % (
+                src, dst, a.getType(), a.getName(), " ".join("%.8f" % 0.0 for _ in a))
+
+        lines = []
+        load = act.get("load") or {"chain": [], "inc": 0}
+        ch = load["chain"]
+        if ch:
+            lines.append(line(by_loc[ch[0]], inv[ch[0]], "SFP"))
+            for p in range(1, len(ch)):
+                lines.append(line(by_loc[ch[p]], inv[ch[p]], inv[ch[p - 1]]))
+            lines.append(line(w.asm[load["inc"]], "SFP", inv[ch[-1]]))
+        for c in act.get("loops") or []:
+            for p in range(len(c)):
+                lines.append(line(by_loc[c[p]], inv[c[p]], inv[c[(p + 1) % len(c)]]))
+        w.nfiles = getattr(w, "nfiles", 0) + 1
+        fn = os.path.join(self._dbdir, "moves-%d-%d-SHUFFLES.txt" % (id(w), w.nfiles))
+        with open(fn, "w") as f:
+            f.write("Before cycle %d:\n" % (int(w.r.p.cycle) + 1))
+            f.writelines(lines)
+            f.write("\n")
+        return fn
+
+    def ask(self, w):
+        """the look-ups by location, none of them given a pre-built table"""
+        core, grid = w.core, w.core.spatialGrid
+        q = {"asm": [], "str": [], "blk": [], "idx": []}
+
+        def A(o):
+            return 0 if o is None else w.aid.get(id(o), -99)
+
+        def B(o):
+            return 0 if o is None else w.bid.get(id(o), -99)
+
+        for l in range(1, self.NL + 1):
+            i, j = w.locs[l - 1]
+            lab = grid.getLabel((i, j))
+            try:
+                a = core.getLocationContents([lab], assemblyLevel=True)[0]
+            except KeyError:
+                a = None
+            q["asm"].append(A(a))
+            if self.geom == "cartesian":
+                # ring/position labels are not defined for Cartesian grids (CartesianGrid.getIndicesFromRingAndPos
+                # raises NotImplementedError by design); its documentation points to the location table itself
+                q["str"].append(A(core.childrenByLocator.get(grid[i, j, 0])))
+            else:
+                q["str"].append(A(core.getAssemblyWithStringLocation(lab)))
+            blk, idx = [], []
+            for k in range(self.MB):
+                try:
+                    b = core.getLocationContents([grid.getLabel((i, j, k))])[0]
+                except KeyError:
+                    b = None
+                blk.append(B(b))
+                try:
+                    b = core.getBlocksByIndices([(i, j, k)])[0]
+                except (KeyError, IndexError):
+                    b = None
+                idx.append(B(b))
+            q["blk"].append(blk)
+            q["idx"].append(idx)
+        return q
+
+    def build(self, root, regen=True):
+        from_db = any(x == LABEL_DB for x in root.get("label", ())) or bool(root.get("db"))
         sf = root["sflags"]
         stationary = tuple(sorted(x for x in sf if sf[x]))
         w = gen_core.build_core(
@@ -58,8 +144,13 @@ class CoreAdapter:
             pooled={a: self.layout[a] for a in range(self.NA0 + 1, self.NA0 + self.NP0 + 1)},
             fresh={a: self.layout[a] for a in range(self.NA0 + self.NP0 + 1, self.NA + 1)},
             places=self.place, n_locs=self.NL, track=bool(root["track"]), stationary=stationary,
-            geom=self.geom, symmetry=self.symmetry, placeholder=lambda aid: -(PLACEHOLDER_BASE + aid))
-        w.err, w.exc = "", ""
+            geom=self.geom, symmetry=self.symmetry, placeholder=lambda aid: -(PLACEHOLDER_BASE + aid),
+            regen=regen, db_file=self.db_file(root, stationary) if from_db else None)
+        w.err, w.exc, w.last, w.q = "", "", "", None
+        w.labels = {}
+        for l in range(1, self.NL + 1):
+            i, j = w.locs[l - 1]
+            w.labels[w.core.spatialGrid.getLabel((i, j))] = l
         w.aid = {id(a): k for k, a in w.asm.items()}
         w.bid = {id(b): self.bid(a, k) for (a, k), b in w.blk.items()}
         w.fp0 = {self.bid(a, k): f for (a, k), f in w.fingerprint0.items()}
@@ -73,9 +164,15 @@ class CoreAdapter:
     def apply(self, w, a):
         n = a["n"]
         A = w.asm
-        w.err, w.exc = "", ""
+        w.err, w.exc, w.last, w.q = "", "", n, None
         try:
-            if n in ("Swap", "SwapMismatch"):
+            if n == "Ask":
+                w.q = self.ask(w)
+            elif n == "Locate":
+                w.core.locateAllAssemblies()
+            elif n == "Repeat":
+                w.fh.repeatShufflePattern(self.moves_file(w, a))
+            elif n in ("Swap", "SwapMismatch"):
                 w.fh.swapAssemblies(A[a["x"]], A[a["y"]])
             elif n == "Cascade":
                 w.fh.swapCascade([A[x] if x else None for x in a["l"]])  # 0 = a None entry
@@ -122,7 +219,7 @@ class CoreAdapter:
         for a in core_list + pool_list:
             for b in a:
                 live_blocks.add(id(b))
-        where, loc, slot, num, moves, asm_found, blocks, notes = [], [], [], [], [], [], [], []
+        where, loc, slot, num, moves, asm_found, blocks, notes, label = [], [], [], [], [], [], [], [], []
         ncols = sfp.numColumns
         for k in ids:
             a = w.asm[k]
@@ -143,6 +240,9 @@ class CoreAdapter:
                 num.append(BAD)
                 notes.append("assembly %d: name %s for number %d" % (k, a.getName(), n))
             moves.append(int(a.p.numMoves))
+            lab = a.lastLocationLabel
+            label.append(0 if lab == a.LOAD_QUEUE else LABEL_DB if lab == a.DATABASE else LABEL_SFP
+                         if lab == a.SPENT_FUEL_POOL else w.labels.get(lab, BAD))
             asm_found.append(A(core.assembliesByName.get(a.getName())) if id(a) in live else 0)
             blocks.append([B(b) for b in a])
         by_loc = [A(core.childrenByLocator.get(self.locator(w, l))) for l in range(1, self.NL + 1)]
@@ -174,8 +274,13 @@ class CoreAdapter:
             "byLocSize": len(core.childrenByLocator), "sfp": [A(a) for a in pool_list], "slot": slot, "num": num,
             "nextNum": int(w.r.p.maxAssemNum), "asmFound": asm_found, "asmDead": sorted(asm_dead),
             "blkFound": blk_found, "blkDead": sorted(blk_dead), "blocks": blocks, "bowner": bowner, "bk": bk,
-            "bname": bname, "content": content, "moves": moves, "err": w.err, "exc": w.exc, "notes": notes,
+            "bname": bname, "content": content, "moves": moves, "label": label,
+            "q": w.q if (w.last == "Ask" and w.q is not None) else self.no_answer,
+            "err": w.err, "exc": w.exc, "notes": notes,
         }
+
+
+ASK = {"n": "Ask"}
 
 
 def ordered_diff(exp, got):
@@ -225,6 +330,15 @@ def replay_all(graph, adapter, select=None):
     class BadPrefix(Exception):
         pass
 
+    asks = {}
+
+    def ask_edge(key, st, obs, q):
+        """Ask is enabled in every state and changes nothing: the expectation of a look-up made in state `key` is that
+        state's observation with TLC's Queries for it (printed with every state)"""
+        if key not in asks:
+            asks[key] = {"act": ASK, "_fk": key, "_tk": key, "from": st, "to": st, "obs": dict(obs, err="", q=q)}
+        return asks[key]
+
     for fk in order:
         pre = graph.path.get(fk)
         if pre is None:
@@ -250,8 +364,11 @@ def replay_all(graph, adapter, select=None):
                     checked.add(id(p))
             return w
 
+        src_obs = pre[-1]["obs"] if pre else None
         try:
             w = fresh()
+            if src_obs is None:
+                src_obs = {}  # a root: its observation is checked by check_init; here only the answers are compared
             done = []  # refusals already executed on w (all conforming)
             loops = [e for e in out if e["_fk"] == e["_tk"]]
             moves = [e for e in out if e["_fk"] != e["_tk"]]
@@ -261,12 +378,24 @@ def replay_all(graph, adapter, select=None):
                     w, done = fresh(), []
                 else:
                     done = done + [e["act"]]
+            src_q = loops[0]["qto"] if loops else None
             for n, e in enumerate(moves):
                 if n > 0:
                     w, done = fresh(), []
+                    if n % 2 == 1 and src_q is not None:
+                        # every other move is preceded by a look-up in the source state (the first one follows all
+                        # the refusals and look-ups made above), the rest by none: both kinds of history are run
+                        adapter.apply(w, ASK)
+                        if judge(ask_edge(fk, out[0]["from"], src_obs, src_q), adapter.project(w), pre_acts + [ASK], root):
+                            continue
+                        done = [ASK]
                 adapter.apply(w, e["act"])
-                if not judge(e, adapter.project(w), pre_acts + done + [e["act"]], root):
+                beh = pre_acts + done + [e["act"]]
+                if not judge(e, adapter.project(w), beh, root):
                     checked.add(id(e))
+                    if e.get("qto") is not None:  # ... and followed by a look-up in the state it leads to
+                        adapter.apply(w, ASK)
+                        judge(ask_edge(e["_tk"], e["to"], e["obs"], e["qto"]), adapter.project(w), beh + [ASK], root)
         except BadPrefix:
             stats["skipped_below_divergence"] += len(out)
     return stats, divs
@@ -275,15 +404,18 @@ def replay_all(graph, adapter, select=None):
 def load_graph(res):
     """edges + per-state observations printed by an emission run -> rp.Graph whose edges carry the expected Obs"""
     cfg = None
-    obs = {}
+    obs, qs = {}, {}
     edges = []
+    no_answer = None
     for p in res.prints:
         if not isinstance(p, dict):
             continue
         if "config" in p:
-            cfg = p["config"]
+            cfg = dict(p["config"], noAnswer=p.get("noAnswer"))
+            no_answer = p.get("noAnswer")
         elif "st" in p:
             obs[rp.skey(p["st"])] = p["obs"]
+            qs[rp.skey(p["st"])] = p.get("q")
         elif "act" in p:
             edges.append(p)
     if cfg is None:
@@ -295,6 +427,9 @@ def load_graph(res):
             continue
         o = dict(o)
         o["err"] = e["err"]
+        # the answers of a look-up are part of the observation of an Ask step only (FuelShuffle!ObsQ)
+        e["qto"] = qs.get(rp.skey(e["to"]))
+        o["q"] = e["qto"] if e["act"]["n"] == "Ask" else no_answer
         e["obs"] = o
         keep.append(e)
     if not keep:
@@ -305,7 +440,8 @@ def load_graph(res):
 # ------------------------------------------------------------------------------------------------------------
 # code -> spec: seeded random shuffle histories through the real FuelHandler / Core, validated by TLC
 # ------------------------------------------------------------------------------------------------------------
-CALLS = {"swap": "Swap", "cascade": "Cascade", "add": "Add", "remove": "Remove", "dswap": "DischargeSwap"}
+CALLS = {"swap": "Swap", "cascade": "Cascade", "add": "Add", "remove": "Remove", "dswap": "DischargeSwap",
+         "repeat": "Repeat", "locate": "Locate", "ask": "Ask"}
 FLAG_SETTINGS = ((), ("G",), ("G", "P"), ("P",), ("G", "S"))
 
 
@@ -315,8 +451,31 @@ def random_call(ad, w, rng, allow_occupied):
     core_ids = [w.aid[id(a)] for a in w.core if id(a) in w.aid]
     pool_ids = [w.aid[id(a)] for a in w.sfp if id(a) in w.aid]
     outside = [k for k in ids if k not in core_ids and k not in pool_ids]
+    where = {}
+    for a in w.core:
+        sl = a.spatialLocator
+        where[w.aid.get(id(a))] = w.loc_index.get((int(sl.i), int(sl.j)))
     for _ in range(20):
-        kind = rng.choice(("swap", "swap", "swap", "cascade", "cascade", "dswap", "dswap", "dswap", "add", "remove", "remove"))
+        kind = rng.choice(("swap", "swap", "swap", "cascade", "cascade", "dswap", "dswap", "dswap", "add", "remove", "remove",
+                           "repeat", "repeat", "ask", "ask", "ask", "locate"))
+        if kind == "ask":
+            return {"n": "ask"}
+        if kind == "locate":
+            return {"n": "locate"}
+        if kind == "repeat" and len(core_ids) >= 2:
+            # a recorded outage: in-core loops (2 or 3 long) and possibly one load chain fed from the pool
+            pick = rng.sample(core_ids, len(core_ids))
+            loops, load = [], {"chain": [], "inc": 0}
+            if pool_ids and rng.random() < 0.5:
+                k = rng.randint(1, min(2, len(pick) - 1 if len(pick) > 2 else len(pick)))
+                load = {"chain": [where[x] for x in pick[:k]], "inc": rng.choice(pool_ids)}
+                pick = pick[k:]
+            while len(pick) >= 2 and (not loops or rng.random() < 0.4) and len(loops) < 2:
+                k = rng.randint(2, min(3, len(pick)))
+                loops.append([where[x] for x in pick[:k]])
+                pick = pick[k:]
+            if loops or load["chain"]:
+                return {"n": "repeat", "load": load, "loops": loops}
         if kind == "swap" and len(core_ids) >= 2:
             x, y = sorted(rng.sample(core_ids, 2))
             return {"n": "swap", "x": x, "y": y}
@@ -354,7 +513,8 @@ def record_traces(ad, ntraces, nev, seed, tag):
         track = rng.random() < 0.6
         flags = FLAG_SETTINGS[t % len(FLAG_SETTINGS)] if t % 2 else ()
         allow_occupied = t % 4 == 3
-        w = ad.build({"track": track, "sflags": {x: (x in flags) for x in "FGPS"}})
+        db = t % 3 == 2
+        w = ad.build({"track": track, "sflags": {x: (x in flags) for x in "FGPS"}, "db": db})
         ev = []
         for _ in range(nev):
             call = random_call(ad, w, rng, allow_occupied)
@@ -364,7 +524,7 @@ def record_traces(ad, ntraces, nev, seed, tag):
             post = ad.project(w)
             exc, notes = post.pop("exc"), post.pop("notes")
             ev.append({"a": call, "post": post, "exc": exc, "notes": notes})
-        traces.append({"id": "%s%d" % (tag, t), "track": track, "sflags": list(flags), "ev": ev})
+        traces.append({"id": "%s%d" % (tag, t), "track": track, "sflags": list(flags), "db": db, "ev": ev})
     return traces
 
 
@@ -441,11 +601,48 @@ def report_divs(rep, divs, cfg, geom, symmetry):
         rep.violation(key_of(d), what_of(d), dict(d, direction="replay", config=cfg, geom=geom, symmetry=symmetry))
 
 
-def sample_selector(graph, rng, n_states, roots=True):
-    """(all edges leaving the roots, plus) the edges of a seeded sample of deeper source states"""
+def sample_selector(graph, rng, n_deep, n_roots=None, p_move=1.0):
+    """edges of a seeded sample of source states: n_roots initial states (None: all; stratified over tracking x
+    database-loaded), n_deep deeper states; of the state-changing edges of a selected state a share p_move is kept
+    (at least one per action name), refusals and look-ups (run in place, cheap) are all kept"""
+    roots = sorted({e["_fk"] for e in graph.edges if e.get("lvl", 1) == 1})
     deep = sorted({e["_fk"] for e in graph.edges if e.get("lvl", 1) > 1})
-    keep = set(rng.sample(deep, min(n_states, len(deep))))
-    return lambda e: (roots and e.get("lvl", 1) == 1) or e["_fk"] in keep
+    keep = set(rng.sample(deep, min(n_deep, len(deep))))
+    if n_roots is None or n_roots >= len(roots):
+        keep |= set(roots)
+    else:
+        first = {}
+        for e in graph.edges:
+            if e.get("lvl", 1) == 1:
+                first.setdefault(e["_fk"], e["from"])
+        strata = {}
+        for k in roots:
+            f = first[k]
+            strata.setdefault((bool(f["track"]), any(x == LABEL_DB for x in f["label"])), []).append(k)
+        for ks in strata.values():
+            rng.shuffle(ks)
+        order = sorted(strata)
+        i = 0
+        while n_roots > 0 and any(strata.values()):
+            ks = strata[order[i % len(order)]]
+            if ks:
+                keep.add(ks.pop())
+                n_roots -= 1
+            i += 1
+    chosen = set()
+    by_state = {}
+    for e in graph.edges:
+        if e["_fk"] in keep:
+            by_state.setdefault(e["_fk"], []).append(e)
+    for k in sorted(by_state):
+        seen = set()
+        es = by_state[k]
+        rng.shuffle(es)
+        for e in es:
+            if e["_fk"] == e["_tk"] or p_move >= 1.0 or e["act"]["n"] not in seen or rng.random() < p_move:
+                chosen.add(id(e))
+            seen.add(e["act"]["n"])
+    return lambda e: id(e) in chosen
 
 
 def check_model(rep, cfgfile, label, timeout=3000, workers=None):
@@ -460,21 +657,56 @@ def check_model(rep, cfgfile, label, timeout=3000, workers=None):
     return res
 
 
+def check_init(rep, cfg, g, variants):
+    """the initial states themselves, as armi hands them over: a freshly built core and a core loaded from a database,
+    WITHOUT the regenAssemblyLists() normalisation the other worlds get"""
+    roots = {}
+    for e in g.edges:
+        if e.get("lvl") == 1 and e["_fk"] not in roots:
+            roots[e["_fk"]] = e
+    obs0 = {}
+    for e in g.edges:  # the observation of a root: that of any self-loop at it
+        if e["_fk"] in roots and e["_fk"] == e["_tk"] and e["_fk"] not in obs0:
+            obs0[e["_fk"]] = dict(e["obs"], err="", q=None)
+    n = 0
+    for geom, symmetry, _ in variants:
+        ad = CoreAdapter(cfg, geom=geom, symmetry=symmetry)
+        for fk, e in roots.items():
+            if fk not in obs0:
+                continue
+            exp = {k: v for k, v in obs0[fk].items() if k != "q"}
+            w = ad.build(e["from"], regen=False)
+            got = ad.project(w)
+            n += 1
+            field, d = ordered_diff(exp, got)
+            if d:
+                kind = "database-loaded" if any(x == LABEL_DB for x in e["from"]["label"]) else "built"
+                rep.violation("replay:Init:.%s" % field,
+                              "the initial state (%s reactor, pre-loaded pool) differs from FuelShuffle's: %s" % (kind, d),
+                              {"direction": "replay", "config": cfg, "geom": geom, "symmetry": symmetry, "root": e["from"],
+                               "behaviour": [], "expected": exp, "observed": got, "regen": False})
+    rep.extra.setdefault("replay", {})["initial-states"] = {"behaviours": n, "nontrivial": 0}
+    rep.replayed += n
+    rep.evaluations += n
+
+
 def emit_and_replay(rep, cfgfile, label, variants, rng):
-    """variants: (geometry, symmetry, number of sampled deeper source states or None for every edge); the first variant
-    also gets every edge leaving the roots"""
+    """variants: (geometry, symmetry, None for every edge | (deeper states, roots or None for all, share of moves))"""
     eres = tlc.run("FuelShuffle_mc", cfgfile, MODDIR, workers=1, coverage=False, timeout=3000)
     rep.add_tlc("edges:" + label, eres)
     cfg, g = load_graph(eres)
     names = {e["act"]["n"] for e in g.edges}
-    missing = {"Swap", "SwapMismatch", "Cascade", "Add", "AddOccupied", "Remove", "DischargeSwap", "DischargeMismatch"} - names
+    missing = {"Swap", "SwapMismatch", "Cascade", "Add", "AddOccupied", "Remove", "DischargeSwap", "DischargeMismatch",
+               "Repeat", "Locate", "Ask"} - names
     if missing:
         raise tlc.MachineryError("emission of %s lacks actions %s" % (cfgfile, sorted(missing)))
+    check_init(rep, cfg, g, variants)
     for vi, (geom, symmetry, n_states) in enumerate(variants):
         ad = CoreAdapter(cfg, geom=geom, symmetry=symmetry)
         sel = None
         if n_states is not None:
-            sel = sample_selector(g, rng, n_states, roots=(vi == 0))
+            n_deep, n_roots, p_move = n_states
+            sel = sample_selector(g, rng, n_deep, n_roots, p_move)
         stats, divs = replay_all(g, ad, select=sel)
         if stats["replayed"] == 0:
             raise tlc.MachineryError("empty replay batch " + label)
@@ -506,10 +738,10 @@ def run(rep, tier, seed):
 
     # 2. spec -> code
     if thorough:
-        emit_and_replay(rep, "FuelShuffle_emit.cfg", "coreS-depth3", (("hex", "full", None), ("hex", "third", 25), ("cartesian", "full", 25)), rng)
-        emit_and_replay(rep, "FuelShuffle_emitT.cfg", "coreT-depth3", (("hex", "full", 50), ("hex", "third", 15), ("cartesian", "full", 15)), rng)
+        emit_and_replay(rep, "FuelShuffle_emit_thorough.cfg", "coreS-depth3", (("hex", "full", (200, None, 1.0)), ("hex", "third", (20, 8, 0.5)), ("cartesian", "full", (20, 8, 0.5))), rng)
+        emit_and_replay(rep, "FuelShuffle_emitT.cfg", "coreT-depth3", (("hex", "full", (40, None, 0.5)), ("hex", "third", (10, 4, 0.5)), ("cartesian", "full", (10, 4, 0.5))), rng)
     else:
-        emit_and_replay(rep, "FuelShuffle_emit.cfg", "coreS-depth3", (("hex", "full", 8), ("hex", "third", 4), ("cartesian", "full", 4)), rng)
+        emit_and_replay(rep, "FuelShuffle_emit.cfg", "coreS-depth3", (("hex", "full", (6, 8, 0.5)), ("hex", "third", (2, 3, 0.4)), ("cartesian", "full", (2, 3, 0.4))), rng)
 
     # 3. code -> spec
     plans = [("FuelShuffle_trace_M.cfg", "coreM-hex-full", "hex", "full", 100 if thorough else 36, 150 if thorough else 45)]
@@ -549,7 +781,7 @@ def replay(payload):
     direction = payload.get("direction")
     if direction == "replay":
         ad = CoreAdapter(payload["config"], geom=payload.get("geom", "hex"), symmetry=payload.get("symmetry", "full"))
-        w = ad.build(payload["root"])
+        w = ad.build(payload["root"], regen=payload.get("regen", True))
         for a in payload["behaviour"]:
             ad.apply(w, a)
         got = ad.project(w)
@@ -563,7 +795,7 @@ def replay(payload):
     if direction == "trace" and payload.get("trace") and payload.get("config"):
         ad = CoreAdapter(payload["config"], geom=payload.get("geom", "hex"), symmetry=payload.get("symmetry", "full"))
         tr = payload["trace"]
-        w = ad.build({"track": tr["track"], "sflags": {x: (x in tr["sflags"]) for x in "FGPS"}})
+        w = ad.build({"track": tr["track"], "sflags": {x: (x in tr["sflags"]) for x in "FGPS"}, "db": tr.get("db", False)})
         k = payload["matched"]
         got = None
         for e in tr["ev"][: k + 1]:
@@ -639,6 +871,18 @@ def mutants():
         ("discharge=False is ignored", Core, "removeAssembly", "if discharge and self._trackAssems:", "if self._trackAssems:"),
         ("cascade gives up at a None level instead of skipping it", FuelHandler, "swapCascade",
          "continue", "break"),
+        ("repeat shuffle finds an in-core loop once per member", FuelHandler, "processMoveList",
+         "loopChains.append(chain)\n            alreadyDone.extend(chain)",
+         "loopChains.append(chain)\n            alreadyDone.append(fromLoc)"),
+        ("moveTo updates the location table only for assemblies not loaded from a database", Assembly, "moveTo",
+         "self.parent.childrenByLocator[locator] = self",
+         "if self.lastLocationLabel != self.DATABASE:\n        self.parent.childrenByLocator[locator] = self"),
+        ("getLocationContents memoised in the core's cache, never cleared by moves", Core, "getLocationContents",
+         "locContents = self.makeLocationLookup(assemblyLevel)",
+         "locContents = self._getCached('locContents-%s' % bool(assemblyLevel))\n"
+         "        if not locContents:\n"
+         "            locContents = self.makeLocationLookup(assemblyLevel)\n"
+         "            self._setCache('locContents-%s' % bool(assemblyLevel), locContents)"),
         ("incoming assembly leaves the pool only when tracking is on", FuelHandler, "dischargeSwap",
          'if self.r.excore.get("sfp") is not None:', 'if self.r.core._trackAssems and self.r.excore.get("sfp") is not None:'),
     ]
@@ -652,7 +896,7 @@ def _mini_check(g, cfg, tcfg, seed, with_traces=True):
     rng = random.Random(seed)
     for vi, (geom, sym, n) in enumerate((("hex", "full", 8), ("hex", "third", 6))):
         ad = CoreAdapter(cfg, geom=geom, symmetry=sym)
-        stats, divs = replay_all(g, ad, select=sample_selector(g, rng, n, roots=(vi == 0)))
+        stats, divs = replay_all(g, ad, select=sample_selector(g, rng, n, 8 if vi == 0 else 4, 0.4))
         keys_r |= {key_of(d) for d in divs}
     if with_traces:
         rep = Report("C14", "selftest", seed)
